@@ -3,11 +3,11 @@ package cache
 import (
 	"archive/tar"
 	"bytes"
-	"context"
 	"encoding/hex"
 	"io"
 	"os/exec"
 	"path/filepath"
+	"syscall"
 
 	"github.com/thought-machine/please/src/core"
 	"github.com/thought-machine/please/src/fs"
@@ -27,22 +27,34 @@ func (cache *cmdCache) Store(target *core.BuildTarget, key []byte, files []strin
 		strKey := keyToString(key)
 		log.Debug("Storing %s: %s in custom cache...", target.Label, strKey)
 
-		ctx, cancel := context.WithCancel(context.Background())
-		defer cancel()
-
-		cmd := exec.CommandContext(ctx, "sh", "-c", cache.storeCommand)
+		cmd := exec.Command("sh", "-c", cache.storeCommand)
 		cmd.Env = append(cmd.Env, "CACHE_KEY="+strKey)
+		// Run it in its own process group so that we can kill everything it started.
+		cmd.SysProcAttr = &syscall.SysProcAttr{Setpgid: true}
 
 		r, w := io.Pipe()
 		cmd.Stdin = r
+		var output bytes.Buffer
+		cmd.Stdout = &output
+		cmd.Stderr = &output
 
-		go write(w, target, files, cancel)
-		output, err := cmd.CombinedOutput()
+		if err := cmd.Start(); err != nil {
+			log.Warning("Failed to start custom store command: %s", err)
+			return
+		}
+		// If we fail partway through, the command (and anything else in its pipeline) must be dead
+		// before its stdin is closed; otherwise it sees a normal end of input & stores a partial artifact.
+		kill := func() {
+			syscall.Kill(-cmd.Process.Pid, syscall.SIGKILL)
+		}
+		go write(w, target, files, kill)
 
+		err := cmd.Wait()
+		r.Close() // in case it exited without reading everything; unblocks the writer
 		if err != nil {
 			log.Warning("Failed to store files via custom command: %s", err)
-			if len(output) > 0 {
-				log.Warning("Custom command output:%s", string(output))
+			if output.Len() > 0 {
+				log.Warning("Custom command output:%s", output.String())
 			}
 		}
 	}
@@ -110,7 +122,7 @@ func (cache *cmdCache) Shutdown() {
 }
 
 // write writes a series of files into the given Writer.
-func write(w io.WriteCloser, target *core.BuildTarget, files []string, cancel context.CancelFunc) {
+func write(w *io.PipeWriter, target *core.BuildTarget, files []string, kill func()) {
 	defer w.Close()
 	tw := tar.NewWriter(w)
 
@@ -122,8 +134,9 @@ func write(w io.WriteCloser, target *core.BuildTarget, files []string, cancel co
 			return storeFile(tw, name)
 		}); err != nil {
 			log.Warning("Error sending artifacts to command-driven cache: %s", err)
-			// kill the running command
-			cancel()
+			// kill the running command, and only then let go of its input
+			kill()
+			w.CloseWithError(err)
 			return
 		}
 	}
